@@ -490,6 +490,21 @@ func runC15(c *Ctx) {
 					t = g.TS()
 				}
 			}
+			if j > 0 && r.Intn(3) == 0 {
+				// the same instant as its predecessor at another known offset (and the same digits)
+				p := vals[j-1].T
+				if p.Prec >= model.PMinute && p.OffKnown {
+					delta := []int{-390, -60, 15, 90, 330, 720}[r.Intn(6)]
+					if no := p.OffMin + delta; no > -1440 && no < 1440 {
+						q := p
+						q.Y, q.M, q.D, q.H, q.Mi = model.ShiftMinutes(p.Y, p.M, p.D, p.H, p.Mi, delta)
+						q.OffMin = no
+						if q.Valid() {
+							t = q
+						}
+					}
+				}
+			}
 			vals = append(vals, model.TSV(t))
 		}
 		switch i % 3 {
